@@ -13,6 +13,7 @@ from ..core import Clause, Violation
 from ..ref import padding as R
 
 META = {
+    "thorough_scale": 2,
     "level": "exploration",
     "rule": (
         "Differential on the vf.vt terminal model: screen A gets the padded output at (0,y0); screen B gets the "
